@@ -56,7 +56,7 @@ inductive Chk where
   | andDropsTypeDef          -- `&&` / `||` whose lhs decides the outcome at compile time drop the
                              --   fallibility / returns of the lhs; `true && e` is not `fallible_unless(null|boolean)`
   | scopeLeak                -- path assignment to a variable that is not in scope (may be alive at run time)
-  | returnDropsReturns       -- `return e` / `abort e` drop what `e` itself may return
+  | returnDropsReturns       -- `return e` / `abort e` / a function-call argument drop what `e` itself may return
   | constSignedZero          -- `Details::merge` keeps a constant that is `==` but not identical
   deriving DecidableEq, Repr
 
@@ -255,8 +255,7 @@ mutual
     | .abort hasMsg msg, T =>
       if hasMsg then
         checks msg T ++
-        chk .ctorPoststate ((typeInfo msg T).1.kind.isBytes && !(typeInfo msg T).1.fallible) ++
-        chk .returnDropsReturns ((typeInfo msg T).1.returns.isNever)
+        chk .ctorPoststate ((typeInfo msg T).1.kind.isBytes && !(typeInfo msg T).1.fallible)
       else []
     | .ret e, T =>
       checks e T ++ chk .ctorPoststate (!(typeInfo e T).1.fallible) ++
@@ -271,7 +270,10 @@ mutual
     | .delExpr _ _ _ _, _ => [.outOfModel]
     | .existsExt _ _, _ => []
     | .existsVar _ _, _ => []
-    | .existsExpr e _, T => checks e T
+    | .existsExpr e _, T =>
+      -- function-call arguments must be infallible; `FunctionCall::type_info` drops their `returns`
+      checks e T ++ chk .ctorPoststate (!(typeInfo e T).1.fallible) ++
+        chk .returnDropsReturns ((typeInfo e T).1.returns.isNever)
     | .call _ _ _ _ _ _ _, _ => [.outOfModel]
 
   def checksSeq : Exprs → TState → BlockAcc → List Chk
